@@ -19,7 +19,7 @@ Section Safety.
   Definition safe {A : Type} (st : dstatus) (n : nat) (x : res (reader * A) rerr) : Prop :=
     match x with
     | Err Fault | Err FuelOut => False
-    | Err (XErr e) => st = Bad e
+    | Err (XErr e) => errOK st e
     | Ok (r', _) => StL r' n st
     end.
 
@@ -39,7 +39,7 @@ Section Safety.
   Lemma ensure_safe : forall r cs st, St r cs st ->
     match ensure c r with
     | Err Fault | Err FuelOut => False
-    | Err (XErr e) => st = Bad e
+    | Err (XErr e) => errOK st e
     | Ok (r', b) => St r' cs st /\ line r' = line r /\ col r' = col r /\
                     (b = true -> exists x t, ccur r' = x :: t) /\ (b = false -> ccur r' = [] /\ cs = [])
     end.
@@ -182,7 +182,7 @@ Section Safety.
     (n - length (ccur r) + 1 <= fuel)%nat ->
     match want_chars c fuel strict r n with
     | Err Fault | Err FuelOut => False
-    | Err (XErr e) => st = Bad e
+    | Err (XErr e) => errOK st e
     | Ok (r', b) => St r' cs st /\ (b = true -> (n <= length (ccur r'))%nat)
     end.
   Proof.
@@ -226,7 +226,7 @@ Section Safety.
   Definition nl_safe (st : dstatus) (n : nat) (x : res (reader * list N) rerr) : Prop :=
     match x with
     | Err Fault | Err FuelOut => False
-    | Err (XErr e) => st = Bad e
+    | Err (XErr e) => errOK st e
     | Ok (r', _) => StL r' n st
     end.
 
@@ -364,7 +364,7 @@ Section Safety.
   Lemma run_ops_safe : forall ops fuel r cs st, St r cs st -> (2 * length cs + 2 <= fuel)%nat ->
     match run_ops c fuel r ops with
     | (_, Some Fault, _) | (_, Some FuelOut, _) => False
-    | (_, Some (XErr e), rf) => st = Bad e /\ good c rf
+    | (_, Some (XErr e), rf) => errOK st e /\ good c rf
     | (_, None, rf) => good c rf
     end.
   Proof.
